@@ -5,6 +5,7 @@ import (
 	"errors"
 	"fmt"
 	"io"
+	"sort"
 	"sync"
 	"time"
 
@@ -23,6 +24,9 @@ func runC10(c *mon.Ctx) {
 			c10Stopwatch(c, r.Fork(2))
 		}
 		c10Exec(c, r.Fork(3), i%8 == 1)
+		if i%8 == 3 {
+			c10ExecOverlapping(c, r.Fork(33))
+		}
 		c10TestScope(c, r.Fork(4))
 		if i%40 == 7 {
 			c10LongTimer(c, r.Fork(44))
@@ -247,11 +251,12 @@ func c10Stopwatch(c *mon.Ctx, r *mon.Rand) {
 	if d < lo || d > hi {
 		c.Violation("stopwatch-elapsed", fmt.Sprintf("stopwatch recorded %v but the elapsed time is bracketed by [%v,%v] (slept %v)", d, lo, hi, sleep))
 	}
-	// stopwatches built with NewStopwatch from a start in the past (an hour, a
-	// century, more than a Duration can hold, the zero time): the elapsed time
-	// as Time.Sub computes it (saturating), never a wrapped or negative value
+	// stopwatches built with NewStopwatch from a start in the future (an hour,
+	// fifty years: a negative elapsed time is recorded as it is) or in the past
+	// (an hour, a century, more than a Duration can hold, the zero time): the
+	// elapsed time as Time.Sub computes it (saturating), never wrapped or clamped
 	if sr, ok := tm.(tally.StopwatchRecorder); ok {
-		for _, start := range []time.Time{time.Now().Add(-time.Hour), time.Now().AddDate(-100, 0, 0), time.Now().AddDate(-400, 0, 0), {}, time.Unix(0, 0), time.Date(1677, 1, 1, 0, 0, 0, 0, time.UTC)} {
+		for _, start := range []time.Time{time.Now().Add(time.Hour), time.Now().AddDate(50, 0, 0), time.Now().Add(-time.Hour), time.Now().AddDate(-100, 0, 0), time.Now().AddDate(-400, 0, 0), {}, time.Unix(0, 0), time.Date(1677, 1, 1, 0, 0, 0, 0, time.UTC)} {
 			n0 := len(timerEvents(logOf(prec)))
 			before := time.Now().Sub(start)
 			tally.NewStopwatch(start, sr).Stop()
@@ -740,4 +745,72 @@ func c10LongTimer(c *mon.Ctx, r *mon.Rand) {
 		}
 	}
 	c.Distinct(mon.Hash64("long", fmt.Sprint(n)))
+}
+
+// c10ExecOverlapping: one instrumented Call used by several goroutines at the
+// same time and re-entrantly (the instrumented function calls Exec on the same
+// Call). Every execution sleeps for a time of its own; whichever way the
+// recorded latencies are matched with executions, the k-th smallest latency is
+// at least the k-th smallest sleep, and every execution moves one counter.
+func c10ExecOverlapping(c *mon.Ctx, r *mon.Rand) {
+	prec := mon.NewPlainRec(true)
+	root, _ := vNewRoot(tally.ScopeOptions{Reporter: prec, OmitCardinalityMetrics: true}, 0, 1)
+	call := instrument.NewCall(root, "op")
+	G := r.Range(2, 5)
+	var mu sync.Mutex
+	var sleeps []time.Duration
+	slept := func(d time.Duration) {
+		time.Sleep(d)
+		mu.Lock()
+		sleeps = append(sleeps, d)
+		mu.Unlock()
+	}
+	var wg sync.WaitGroup
+	for g := 0; g < G; g++ {
+		wg.Add(1)
+		outer := time.Duration(r.Range(2000, 6000)) * time.Microsecond
+		inner := time.Duration(r.Range(100, 900)) * time.Microsecond
+		nested := r.Bool()
+		go func() {
+			defer wg.Done()
+			call.Exec(func() error {
+				if nested {
+					time.Sleep(outer - inner)
+					call.Exec(func() error { slept(inner); return nil })
+					mu.Lock()
+					sleeps = append(sleeps, outer)
+					mu.Unlock()
+					return nil
+				}
+				slept(outer)
+				return nil
+			})
+		}()
+	}
+	wg.Wait()
+	tally.VerifReportPass(root)
+	var lats []time.Duration
+	var moved int64
+	for _, e := range logOf(prec) {
+		switch e.Kind {
+		case mon.EvTimer:
+			lats = append(lats, time.Duration(e.I))
+		case mon.EvCounter:
+			moved += e.I
+		}
+	}
+	sort.Slice(lats, func(i, j int) bool { return lats[i] < lats[j] })
+	sort.Slice(sleeps, func(i, j int) bool { return sleeps[i] < sleeps[j] })
+	desc := map[string]interface{}{"executions": len(sleeps), "time_spent_inside_each_sorted": fmt.Sprint(sleeps), "latencies_recorded_sorted": fmt.Sprint(lats)}
+	if len(lats) != len(sleeps) || moved != int64(len(sleeps)) {
+		c.Violation("exec-latency-count", map[string]interface{}{"why": fmt.Sprintf("%d executions (some overlapping or nested) recorded %d latencies and moved the counters by %d", len(sleeps), len(lats), moved), "case": desc})
+		return
+	}
+	for k := range lats {
+		if lats[k] < sleeps[k] {
+			c.Violation("exec-latency-value", map[string]interface{}{"why": fmt.Sprintf("the %d-th smallest recorded latency is %v but the %d-th shortest execution spent at least %v inside the instrumented function", k, lats[k], k, sleeps[k]), "case": desc})
+			return
+		}
+	}
+	c.Event("overlapping-exec-calls", int64(len(sleeps)))
 }
